@@ -162,7 +162,7 @@ def analyse(ctx, F, body, MA, FA):
 
 
 @rule('C10', 'atomic', configs=('default', 'p256'))
-def atomic(ctx, only=None):
+def atomic(ctx, only=None, floor=4):
     """only: regex restricting the functions examined (used by the properties that delegate one clause to this rule)."""
     F = ctx.F
     MA = lib.MutAnalysis(F)
@@ -197,7 +197,7 @@ def atomic(ctx, only=None):
                     body.where(e.ln),
                     path={'writes': [(x.desc[:100], x.ln) for x in ws[:6]], 'error_exit': (e.desc, e.ln)})
     if only_re is not None:
-        ctx.floor(seen, 4, 'functions examined (restricted)')
+        ctx.floor(seen, floor, 'functions examined (restricted)')
         return
     missing = [k for k in EXPECTED if k not in F.bodies]
     for k in missing:
